@@ -260,6 +260,10 @@ def known_for(mod, known, case, verdict_lines):
     """ids of the open known findings that explain *every* SPECFAIL line of the case, or None if some line is not
     explained (then the case is a new violation). `mod.signatures` maps each SPECFAIL line to a canonical signature."""
     if not hasattr(mod, 'signatures'):
+        if hasattr(mod, 'signature'):          # case-level signature
+            sg = mod.signature(case, verdict_lines)
+            kf = next((k for k in known if sg is not None and k.get('signature') == sg), None)
+            return [kf['id']] if kf else None
         return None
     lines = [l for l in verdict_lines if l.startswith('SPECFAIL')]
     sigs = mod.signatures(case, lines)
